@@ -2075,7 +2075,33 @@ func ruleBootstrapGate(e *Engine, r *Report) {
 		v := e.Func("(*raftpb.Bootstrap).Validate")
 		return ok && v != nil && e.CallsTo(c, v)
 	}
-	res := e.findPath(bs, nil, func(in ssa.Instruction) bool { return e.isSuccessReturn(in) }, func(in ssa.Instruction) bool { return isSave(in) || isValidate(in) }, nil)
+	barrier := func(in ssa.Instruction) bool { return isSave(in) || isValidate(in) }
+	// a return that forwards the results of a same-package helper (`return nh.saveBootstrapInfo(...)`) succeeds
+	// exactly when the helper does: it is covered when every success return of the helper is behind the step
+	var succeedsOnlyAfterStep func(fn *ssa.Function, depth int) PathResult
+	succeedsOnlyAfterStep = func(fn *ssa.Function, depth int) PathResult {
+		target := func(in ssa.Instruction) bool {
+			if !e.isSuccessReturn(in) {
+				return false
+			}
+			ret := in.(*ssa.Return)
+			idx := errResultIndex(fn)
+			if idx >= 0 && depth > 0 {
+				if ex, ok := stripConv(retOperand(ret, idx)).(*ssa.Extract); ok {
+					if c, ok := ex.Tuple.(*ssa.Call); ok {
+						if g := c.Call.StaticCallee(); g != nil && len(g.Blocks) > 0 && fnPkg(g) == fnPkg(fn) {
+							if !succeedsOnlyAfterStep(g, depth-1).Found {
+								return false
+							}
+						}
+					}
+				}
+			}
+			return true
+		}
+		return e.findPath(fn, nil, target, barrier, nil)
+	}
+	res := succeedsOnlyAfterStep(bs, 2)
 	r.check(!res.Found, "VAL-bootstrap", "bootstrapShard succeeds only after saving a fresh record or validating the stored one", e.pos(bs.Pos()),
 		"no start without a bootstrap record that agrees with the request", "bootstrapShard can report success without having saved a bootstrap record or validated the stored one against the request: a replica can be restarted with a different initial membership / join flag than it was created with", res.Trace(e)...)
 	// Validate itself: a recorded Join with a non-empty member list is refused
